@@ -14,7 +14,7 @@ let parse_op (s : string) : BinNums.coq_N op =
   let n i = n_of_string f.(i) in
   match f.(0) with
   | "new" -> ONew ((n 1, n 2), (n 3, n 4))
-  | "empty" -> OEmpty
+  | "empty" | "default" -> OEmpty   (* Range::default() is the empty range *)
   | "sparse" ->
     let cells =
       if Array.length f < 2 || f.(1) = "" then []
